@@ -104,13 +104,14 @@ def _const_value(t):
 
 
 class Sym:
-    __slots__ = ("t", "hint")
+    __slots__ = ("t", "hint", "width")
     __hash__ = None
     # NOTE: no __array_priority__ / __array_ufunc__: ndarray <op> Sym must broadcast.
 
-    def __init__(self, t, hint=None):
+    def __init__(self, t, hint=None, width=None):
         self.t = t
         self.hint = hint
+        self.width = width          # natural decimal width when rendered with str()/format()
 
     # ---- sorts -------------------------------------------------------------------------
     @property
@@ -128,9 +129,19 @@ class Sym:
     def __repr__(self):
         return "Sym(%s)" % (str(self.t).replace("\n", " ")[:120],)
 
-    __str__ = __repr__
+    def __str__(self):
+        if self.width and core._P is not None:
+            return make_token(symint(self), self.width)
+        return self.__repr__()
 
     def __format__(self, spec):
+        import re as _re
+        m = _re.fullmatch(r"0(\d+)d?", spec or "")
+        if m and core._P is not None and not self.is_bool:
+            return make_token(symint(self), int(m.group(1)))
+        w = getattr(self, "width", None)
+        if (spec in ("", "d")) and w and core._P is not None:
+            return make_token(symint(self), w)
         return "<sym>"
 
     # ---- control flow ------------------------------------------------------------------
@@ -430,6 +441,53 @@ class Sym:
         return False
 
 
+# ---- digit tokens: symbolic integers rendered as strings ------------------------------------------
+# A token is a string of `width` non-ASCII Unicode decimal digits; character i encodes
+# (token id, position i).  Python's `re` matches them with \d, len() and slicing work, and the
+# `int` proxy (symint) maps a token or a slice of one back to the symbolic digits it stands for.
+import unicodedata as _ud
+_TOKCHARS = [chr(c) for c in range(0x660, 0x1FBFA) if _ud.category(chr(c)) == "Nd"]
+_TOKPOS = {ch: i for i, ch in enumerate(_TOKCHARS)}
+_TOKW = 8                      # positions per token
+
+
+def make_token(sym, width):
+    p = core._P
+    if p is None:
+        raise RuntimeError("token outside of an engine run")
+    toks = p.__dict__.setdefault("tokens", [])
+    tid = len(toks)
+    if width > _TOKW or (tid + 1) * _TOKW > len(_TOKCHARS):
+        raise RuntimeError("too many / too wide digit tokens")
+    toks.append((sym, width))
+    return "".join(_TOKCHARS[tid * _TOKW + i] for i in range(width))
+
+
+def is_token_str(x):
+    return isinstance(x, str) and len(x) > 0 and all(ch in _TOKPOS for ch in x)
+
+
+def decode_token(s):
+    """token string (or a contiguous slice of one) -> Sym of the digits it shows"""
+    p = core._P
+    toks = p.__dict__.get("tokens", [])
+    first = _TOKPOS[s[0]]
+    tid, pos0 = divmod(first, _TOKW)
+    for k, ch in enumerate(s):
+        t, ps = divmod(_TOKPOS[ch], _TOKW)
+        if t != tid or ps != pos0 + k:
+            raise ValueError("digit string mixes different symbolic tokens: %r" % (s,))
+    sym, width = toks[tid]
+    q = pos0 + len(s) - 1                 # last shown position
+    v = _num(sym.t)
+    lowdrop = width - 1 - q               # digits dropped on the right
+    if lowdrop > 0:
+        v = v / (10 ** lowdrop)           # z3 integer div (values are non-negative)
+    if pos0 > 0:
+        v = v % (10 ** len(s))
+    return Sym(v)
+
+
 def _floor_term(t):
     return z3.ToInt(t) if z3.is_real(t) else t
 
@@ -441,6 +499,8 @@ def _trunc_term(t):
 
 def symint(x):
     """Replacement for the builtin `int` in patched module globals: keeps symbols symbolic."""
+    if is_token_str(x) and core._P is not None:
+        return decode_token(x)
     if isinstance(x, Sym):
         if x.hint is not None and x.hint[0] == "intdiv":
             _, a, k = x.hint
